@@ -8,6 +8,7 @@ property is delivered as the tolerance of the correspondence check) and identity
 inside the called operators (C10).
 -/
 import OdlModel.Model.Solvers
+import OdlModel.Model.SolversResume
 import OdlModel.Lemmas.Solvers
 import Mathlib.Algebra.Module.Basic
 import Mathlib.Algebra.Field.Rat
@@ -264,6 +265,146 @@ theorem C11.resume_steepest_descent {K V : Type} [Field K] [LinearOrder K] [AddC
           simp_all <;> (repeat' split) <;> simp_all)
     m ⟨a.x, g0', false, false, []⟩ a ⟨rfl, by simp [hok], hinv, by simp⟩
   exact this.1
+
+/-! ### Round 4: resumption of the paths whose state is MORE than the iterate -/
+section
+variable {K V W : Type} [Field K] [AddCommGroup V] [Module K V] [AddCommGroup W] [Module K W]
+set_option linter.unusedSectionVars false
+
+/-- `proximal_gradient`: the loop counter `k` of `for k in range(niter)` (the argument of a callable
+`lam`) after `n` iterations is `n` more than at the start — the only hidden state of the solver. -/
+theorem C11.proximal_gradient_counter (P : ProxGradP K V) (s : ProxGradS V) (n : Nat) :
+    (P.step^[n] s).k = s.k + n := by
+  have := iterate_count P.step (·.k) 1 (fun s => by simp only [ProxGradP.step]) n s
+  simpa using this
+
+/-- `proximal_gradient` with a CALLABLE relaxation `lam`: `n` iterations, then a fresh call (counter
+restarts at 0, temporary re-allocated) with the SHIFTED schedule `lambda k: lam(n + k)` and `m`
+iterations, give the iterate of `n + m` iterations with `lam` — for every schedule `lam`, all
+proximal / gradient maps, every `n`, `m`.  (What must be handed back is the iterate and the
+position `n` in the schedule; tied to the code by the stream `proxgrad_lam`.) -/
+theorem C11.resume_proximal_gradient_callable (P : ProxGradP K V) (x0 junk junk' : V) (n m : Nat) :
+    let P' : ProxGradP K V := { P with lam := fun k => P.lam (n + k) }
+    (P'.step^[m] (P'.init (P.step^[n] (P.init x0 junk)).x junk')).x =
+      (P.step^[n + m] (P.init x0 junk)).x := by
+  intro P'
+  rw [Nat.add_comm n m, Function.iterate_add_apply]
+  have hk : (P.step^[n] (P.init x0 junk)).k = n := by
+    rw [C11.proximal_gradient_counter]; simp [ProxGradP.init]
+  generalize P.step^[n] (P.init x0 junk) = a at hk
+  exact (iterate_sim P'.step P.step (fun s t => s.x = t.x ∧ t.k = n + s.k)
+    (fun s t ⟨h1, h2⟩ => by
+      refine ⟨?_, ?_⟩
+      · simp only [ProxGradP.step, h1, h2, P']
+      · simp only [ProxGradP.step, h2]; omega) m (P'.init a.x junk') a
+    ⟨rfl, by simp [ProxGradP.init, hk]⟩).1
+
+/-- The shift is needed: resuming with the UNSHIFTED callable (what a caller who only keeps `x`
+does) differs from the uninterrupted run as soon as `lam` is not constant. -/
+theorem C11.resume_proximal_gradient_callable_needs_shift :
+    let P : ProxGradP ℚ ℚ := ⟨fun x => x / 2, fun _ => 0, 1, fun k => if k = 0 then 1 else 1 / 2⟩
+    (P.step^[1] (P.init (P.step^[1] (P.init 1 (-77))).x (-77))).x ≠ (P.step^[1 + 1] (P.init 1 (-77))).x := by
+  simp only [Function.iterate_succ, Function.iterate_zero, Function.comp, ProxGradP.step,
+    ProxGradP.init, lincomb, smul_eq_mul]
+  norm_num
+
+/-- Non-vacuity of `resume_proximal_gradient_callable`: on the same instance the shifted schedule
+reproduces the uninterrupted run, and the iterate moves (1 → 1/2 → 3/8). -/
+example :
+    let P : ProxGradP ℚ ℚ := ⟨fun x => x / 2, fun _ => 0, 1, fun k => if k = 0 then 1 else 1 / 2⟩
+    let P' : ProxGradP ℚ ℚ := { P with lam := fun k => P.lam (1 + k) }
+    (P'.step^[1] (P'.init (P.step^[1] (P.init 1 (-77))).x (-77))).x = 3 / 8 ∧
+    (P.step^[1 + 1] (P.init 1 (-77))).x = 3 / 8 := by
+  simp only [Function.iterate_succ, Function.iterate_zero, Function.comp, ProxGradP.step,
+    ProxGradP.init, lincomb, smul_eq_mul]
+  norm_num
+
+/-- Accelerated `pdhg` (`gamma_primal` / `gamma_dual`): the step sizes and the relaxation after `n`
+iterations are the `n`-fold iterate of the scalar recurrence `accel` started from the initial
+`(tau, sigma, theta)` — they do not depend on the operator, the functionals or the iterates, so a
+caller can recompute `tau_n, sigma_n` (which `pdhg` does not return) without the solver.  This is
+what the split-run oracle of the stream `pdhg_acc` does in floats. -/
+theorem C11.pdhg_acc_steps_closed (P : PdhgAccP K V W) (s : PdhgAccS K V W) (n : Nat) :
+    ((P.step^[n] s).tau, (P.step^[n] s).sigma, (P.step^[n] s).theta) =
+      P.accel^[n] (s.tau, s.sigma, s.theta) :=
+  iterate_sim P.step P.accel (fun a t => (a.tau, a.sigma, a.theta) = t)
+    (fun a t h => by subst h; simp only [PdhgAccP.step]) n s (s.tau, s.sigma, s.theta) rfl
+
+/-- Accelerated `pdhg`: when `x_relax`, `y` (updated in place by the first call) AND the step sizes
+`tau_n, sigma_n` reached by the first call are passed to the second call, `n` then `m` iterations
+give the same `x, x_relax, y, tau, sigma` as `n + m` iterations — whatever `theta` keyword the
+second call gets (with acceleration `theta` is recomputed before it is read), for all operators,
+proximal FACTORIES (rebuilt every iteration from the current step), `sqrt` functions, `n`, `m`. -/
+theorem C11.pdhg_acc_resume (P : PdhgAccP K V W)
+    (hacc : P.gammaPrimal.isSome = true ∨ P.gammaDual.isSome = true)
+    (x0 : V) (xr0 : Option V) (y0 : Option W) (zeroW : W) (tau0 sigma0 theta0 theta' : K)
+    (jV jV' : V) (jW jW' : W) (n m : Nat) :
+    let s := P.step^[n] (P.init x0 xr0 y0 zeroW tau0 sigma0 theta0 jV jW)
+    let r := P.step^[m] (P.init s.x (some s.xRelax) (some s.y) zeroW s.tau s.sigma theta' jV' jW')
+    let t := P.step^[n + m] (P.init x0 xr0 y0 zeroW tau0 sigma0 theta0 jV jW)
+    r.x = t.x ∧ r.xRelax = t.xRelax ∧ r.y = t.y ∧ r.tau = t.tau ∧ r.sigma = t.sigma := by
+  intro s r t
+  have hth : ∀ (tau sigma th1 th2 : K), P.accel (tau, sigma, th1) = P.accel (tau, sigma, th2) := by
+    intro tau sigma th1 th2
+    unfold PdhgAccP.accel
+    rcases hp : P.gammaPrimal with _ | g <;> rcases hd : P.gammaDual with _ | g' <;> simp_all
+  have := resume_generic P.step (fun s => (s.x, s.xRelax, s.y, s.tau, s.sigma))
+    (fun o => P.init o.1 (some o.2.1) (some o.2.2.1) zeroW o.2.2.2.1 o.2.2.2.2 theta' jV' jW')
+    (fun a b h => by
+      simp only [Prod.mk.injEq] at h
+      obtain ⟨h1, h2, h3, h4, h5⟩ := h
+      simp only [PdhgAccP.step, h1, h2, h3, h4, h5, hth b.tau b.sigma a.theta b.theta])
+    (fun _ => rfl) n m (P.init x0 xr0 y0 zeroW tau0 sigma0 theta0 jV jW)
+  simp only [Prod.mk.injEq] at this
+  exact this
+
+/-- Without acceleration the loop body as written (proximals from the factories at the current
+`sigma`, `tau`) runs exactly like the body with the two proximals HOISTED out of the loop
+(`proximal_constant`: `Solvers.PdhgP.step`, the machine of `pdhg_resume`): `tau, sigma, theta`
+are loop invariants, so the factory is always called with the initial steps.  All `n`. -/
+theorem C11.pdhg_acc_constant_refines (P : PdhgAccP K V W) (hp : P.gammaPrimal = none)
+    (hd : P.gammaDual = none) (x0 : V) (xr0 : Option V) (y0 : Option W) (zeroW : W)
+    (tau sigma theta : K) (jV : V) (jW : W) (n : Nat) :
+    let Q : PdhgP K V W := ⟨P.L, P.dAdj, P.proxF tau, P.proxGc sigma, tau, sigma, theta⟩
+    let a := P.step^[n] (P.init x0 xr0 y0 zeroW tau sigma theta jV jW)
+    let b := Q.step^[n] (Q.init x0 xr0 y0 zeroW jV jW)
+    a.x = b.x ∧ a.xRelax = b.xRelax ∧ a.y = b.y := by
+  intro Q a b
+  have := iterate_sim P.step Q.step
+    (fun a b => a.x = b.x ∧ a.xRelax = b.xRelax ∧ a.y = b.y ∧ a.tau = tau ∧ a.sigma = sigma ∧ a.theta = theta)
+    (fun a b ⟨h1, h2, h3, h4, h5, h6⟩ => by
+      simp only [PdhgAccP.step, PdhgP.step, PdhgAccP.accel, hp, hd, h1, h2, h3, h4, h5, h6, Q, and_self])
+    n (P.init x0 xr0 y0 zeroW tau sigma theta jV jW) (Q.init x0 xr0 y0 zeroW jV jW)
+    ⟨rfl, rfl, rfl, rfl, rfl, rfl⟩
+  exact ⟨this.1, this.2.1, this.2.2.1⟩
+
+/-- Passing back `x_relax` and `y` but the ORIGINAL `tau, sigma` (all that the signature of `pdhg`
+suggests) does not resume an accelerated run: 1-d instance with `gamma_primal = 3`, `tau = 1/2`
+(`1 + 2·3·1/2 = 4`, the only argument at which the compared component depends on `sqrt`). -/
+theorem C11.pdhg_acc_resume_needs_steps :
+    let P : PdhgAccP ℚ ℚ ℚ := ⟨id, fun _ y => y, fun t x => x / (1 + t), fun _ y => y,
+      some 3, none, fun q => if q = 4 then 2 else 1⟩
+    let s := P.step^[1] (P.init 1 none none 0 (1 / 2) 1 1 0 0)
+    (P.step^[1] (P.init s.x (some s.xRelax) (some s.y) 0 (1 / 2) 1 1 0 0)).x ≠
+      (P.step^[1 + 1] (P.init 1 none none 0 (1 / 2) 1 1 0 0)).x := by
+  simp only [Function.iterate_succ, Function.iterate_zero, Function.comp, PdhgAccP.step, PdhgAccP.init,
+    PdhgAccP.accel, lincomb, smul_eq_mul, Option.getD, id]
+  norm_num
+
+/-- Non-vacuity of `pdhg_acc_resume` on the same instance: the first iteration moves `x`, changes
+the steps to `tau = 1/4, sigma = 2, theta = 1/2`, and with those handed back (and a nonsense
+`theta = 77`) the resumed run reproduces the uninterrupted one. -/
+example :
+    let P : PdhgAccP ℚ ℚ ℚ := ⟨id, fun _ y => y, fun t x => x / (1 + t), fun _ y => y,
+      some 3, none, fun q => if q = 4 then 2 else 1⟩
+    let s := P.step^[1] (P.init 1 none none 0 (1 / 2) 1 1 0 0)
+    s.tau = 1 / 4 ∧ s.sigma = 2 ∧ s.theta = 1 / 2 ∧ s.x ≠ 1 ∧
+    (P.step^[1] (P.init s.x (some s.xRelax) (some s.y) 0 s.tau s.sigma 77 0 0)).x =
+      (P.step^[1 + 1] (P.init 1 none none 0 (1 / 2) 1 1 0 0)).x := by
+  simp only [Function.iterate_succ, Function.iterate_zero, Function.comp, PdhgAccP.step, PdhgAccP.init,
+    PdhgAccP.accel, lincomb, smul_eq_mul, Option.getD, id]
+  norm_num
+end
 
 /-! ### Callbacks -/
 
